@@ -611,6 +611,14 @@ def rewrite_body(body, log, r14=None, mut_refs=None):
         body = body[:mo.start()] + rep + body[b_close + 1 + tail.end():]
         log.append('R17')
 
+    # R2f -- `for (I, X) in V.iter_mut().enumerate() {` -> range loop over the indices binding a mutable
+    # reference to the I-th element (the definition of enumerate over iter_mut); R1 then turns it into a while loop
+    def r2f(mo):
+        log.append('R2f')
+        iv, pat, vec = mo.group(1), mo.group(2), mo.group(3)
+        return 'for %s in 0..%s.len() { let %s = &mut %s[%s];' % (iv, vec, pat, vec, iv)
+    body = re.sub(r'\bfor\s+\(\s*(\w+)\s*,\s*(\w+)\s*\)\s+in\s+([a-z_]\w*)\.iter_mut\(\)\.enumerate\(\)\s*\{', r2f, body)
+
     # R2e -- `for X in V.iter_mut() {` -> index loop binding a mutable reference to the element
     def r2e(mo):
         log.append('R2e')
